@@ -3,8 +3,10 @@
 package vnet
 
 import (
+	"math"
 	"math/rand"
 	"net"
+	"strconv"
 	"sync"
 	"testing"
 	"testing/synctest"
@@ -96,12 +98,14 @@ func TestVerifLoss(t *testing.T) {
 	rng := rand.New(rand.NewSource(vrt.Seed())) //nolint:gosec
 	n := vrt.EnvInt("VERIF_N", 10000)
 	chances := []int{-5, 0, 1, 5, 10, 20, 25, 28, 33, 50, 66, 75, 90, 99, 100, 101, 150, 175, 250, 1000}
+	// far out of range, around the word sizes
+	chances = append(chances, 1<<31-1, 1<<31, 1<<32, 1<<40, math.MaxInt64, -1<<31, -1<<40, math.MinInt64)
 	if vrt.EnvInt("VERIF_ALL", 0) == 1 {
 		chances = chances[:0]
 		for c := -2; c <= 103; c++ {
 			chances = append(chances, c)
 		}
-		chances = append(chances, 150, 175, 250, 1000, 1<<20)
+		chances = append(chances, 150, 175, 250, 1000, 1<<20, 1<<31-1, 1<<31, 1<<32, 1<<40, math.MaxInt64, -1<<31, -1<<40, math.MinInt64)
 	}
 	for _, ch := range chances {
 		rec := newRecNIC()
@@ -109,7 +113,15 @@ func TestVerifLoss(t *testing.T) {
 		if err != nil {
 			t.Fatal(err)
 		}
-		tr.Emit(vrt.M{"ev": "reset", "chance": ch})
+		// the specification distinguishes <= 0, 1..99 and >= 100 only; TLC's integers are 32 bits wide
+		mch := ch
+		if mch > 1000000 {
+			mch = 1000000
+		}
+		if mch < -1000000 {
+			mch = -1000000
+		}
+		tr.Emit(vrt.M{"ev": "reset", "chance": mch, "configured": strconv.Itoa(ch)})
 		for i := 1; i <= n; i++ {
 			c := rec.mk(rng, i, rng.Intn(1501)*(rng.Intn(4)/3)+rng.Intn(40))
 			f.onInboundChunk(c)
